@@ -75,6 +75,7 @@ func cmdVerify(argv []string) {
 	tier := fs.String("tier", "quick", "quick|thorough")
 	timeout := fs.Int("timeout", 0, "solver timeout in ms (default 8000 quick / 60000 thorough)")
 	verbose := fs.Bool("v", false, "verbose")
+	skip := fs.String("skip", "", "obligation names (separated by ;;) that are not claimed and need not be solved")
 	_ = fs.Parse(argv)
 	if *timeout == 0 {
 		*timeout = 8000
@@ -155,6 +156,7 @@ func cmdVerify(argv []string) {
 		o      *Obligation
 		script string
 		lite   string // same query without quantified facts (may only discharge)
+		cone   string // same query restricted to the facts in the goal's cone of influence (may only discharge)
 	}
 	var jobs []job
 	for _, t := range tgts {
@@ -206,6 +208,9 @@ func cmdVerify(argv []string) {
 					if dropped {
 						lite = append(lite, asserts[len(asserts)-1])
 						j.lite = Script(lite, nil, t.con.RealFloat)
+						if c := coneOf(asserts); len(c) < len(asserts) {
+							j.cone = Script(c, nil, t.con.RealFloat)
+						}
 					}
 				}
 				jobs = append(jobs, j)
@@ -228,6 +233,12 @@ func cmdVerify(argv []string) {
 	ex.globalObligations(res)
 	res.GenS = time.Since(t0).Seconds()
 	// solve
+	skipSet := map[string]bool{}
+	for _, n := range strings.Split(*skip, ";;") {
+		if n != "" {
+			skipSet[n] = true
+		}
+	}
 	t1 := time.Now()
 	outs := make([]*OblOut, len(jobs))
 	var wg sync.WaitGroup
@@ -239,6 +250,10 @@ func cmdVerify(argv []string) {
 			sem <- struct{}{}
 			defer func() { <-sem }()
 			fname := fmt.Sprintf("%04d_%s", i, sanitize(j.o.Name))
+			if skipSet[j.o.Name] {
+				outs[i] = &OblOut{Name: j.o.Name, Kind: j.o.Kind, Func: j.o.Func, Pos: j.o.Pos, Text: j.o.Text, Status: "undecided", Answer: "skipped", Backend: "smt"}
+				return
+			}
 			r := Solve(j.script, *smtdir, fname, *timeout, *tier == "thorough")
 			if r.Status != "unsat" && r.Status != "sat" && j.lite != "" {
 				// retry without quantified facts: fewer assumptions, so only "unsat" is meaningful
@@ -247,6 +262,13 @@ func cmdVerify(argv []string) {
 					r2.Solver += "(qf-facts)"
 					r2.Seconds += r.Seconds
 					r = r2
+				} else if j.cone != "" {
+					r3 := Solve(j.cone, *smtdir, fname+"_cone", *timeout, false)
+					if r3.Status == "unsat" {
+						r3.Solver += "(cone)"
+						r3.Seconds += r.Seconds
+						r = r3
+					}
 				}
 			}
 			oo := &OblOut{Name: j.o.Name, Kind: j.o.Kind, Func: j.o.Func, Pos: j.o.Pos, Text: j.o.Text, Answer: r.Status, Solver: r.Solver,
@@ -377,4 +399,77 @@ func hasQuantifier(t *Term) bool {
 	}
 	quantMemo[t.id] = r
 	return r
+}
+
+
+// coneOf keeps the goal (last assert) and the facts reachable from it through shared symbols;
+// quantifier-free facts are always kept, quantified ones only when connected. Fewer assumptions,
+// so only "unsat" from such a query is meaningful.
+func coneOf(asserts []*Term) []*Term {
+	syms := func(t *Term) map[string]bool {
+		out := map[string]bool{}
+		seen := map[int]bool{}
+		var rec func(t *Term)
+		rec = func(t *Term) {
+			if seen[t.id] {
+				return
+			}
+			seen[t.id] = true
+			if t.Op == "const" || t.Op == "uf" {
+				switch t.Name {
+				case "slen", "sat", "sconcat", "ssub", "boxedtag", "strlt":
+				default:
+					out[t.Name] = true
+				}
+			}
+			for _, a := range t.Args {
+				rec(a)
+			}
+		}
+		rec(t)
+		return out
+	}
+	n := len(asserts)
+	goal := asserts[n-1]
+	cur := syms(goal)
+	fs := make([]map[string]bool, n-1)
+	for i := 0; i < n-1; i++ {
+		fs[i] = syms(asserts[i])
+	}
+	in := make([]bool, n-1)
+	for i := 0; i < n-1; i++ {
+		if !hasQuantifier(asserts[i]) {
+			in[i] = true
+			for s := range fs[i] {
+				cur[s] = true
+			}
+		}
+	}
+	// quantified facts: connected only through the goal's own symbols (one step), not transitively
+	goalSyms := syms(goal)
+	for round := 0; round < 3; round++ {
+		for i := 0; i < n-1; i++ {
+			if in[i] {
+				continue
+			}
+			for s := range fs[i] {
+				if goalSyms[s] {
+					in[i] = true
+					for s2 := range fs[i] {
+						if strings.HasPrefix(s2, "H_") || strings.HasPrefix(s2, "M") || strings.HasPrefix(s2, "G@") {
+							goalSyms[s2] = true
+						}
+					}
+					break
+				}
+			}
+		}
+	}
+	var out []*Term
+	for i := 0; i < n-1; i++ {
+		if in[i] {
+			out = append(out, asserts[i])
+		}
+	}
+	return append(out, goal)
 }
